@@ -186,7 +186,7 @@ def rand_value(rng, loop):
 
 
 NAMES = ["cell_length_a", "symmetry_space_group_name_H-M", "atom_site_label", "atom_site_fract_x", "atom_site_fract_y", "atom_type_symbol",
-         "x", "Z", "chemical_formula_sum", "geom_bond_distance", "geom_bond_atom_site_label_1", "refine_ls_R_factor", "a.b", "k[1]", "name-2"]
+         "x", "Z", "chemical_formula_sum", "geom_bond_distance", "geom_bond_atom_site_label_1", "refine_ls_R_factor", "a.b", "k[1]", "name-2", "_lead", "tail_"]
 
 
 def rand_block(rng, with_loops=True):
@@ -206,6 +206,10 @@ def rand_block(rng, with_loops=True):
                     col = [(rand_int(rng) if kind == 0 else rand_float(rng, True) if kind == 1 else rand_string(rng, True)) if rng.random() < 0.8
                            else rand_value(rng, True) for _ in range(rows)]
                     items[f"{prefix}_{lg}_{c}" if rng.random() < 0.7 else f"{prefix}{lg}{c}"] = col
+        if rng.random() < 0.3:      # column names that themselves begin or end with an underscore (the writer adds one more, the reader removes exactly one)
+            rows = int(rng.integers(1, 4))
+            for c in range(int(rng.integers(1, 3))):
+                items[f"_u_{c}"] = [rand_int(rng) for _ in range(rows)]
     if not items:
         items["only"] = 1
     keys = list(items)
